@@ -133,6 +133,33 @@ def dedupBy (bombs : List Id) (v : Vec) (o : List Outcome) : M (Out Unit) :=
   if len ≤ 1 then .ok ⟨v, .ret (), o⟩
   else dedupLoop bombs (len - 1) v 1 1 o
 
+/-- GHOST: the pairs `same_bucket` is handed, in call order — `(slot[read], slot[write - 1])`, i.e. the element
+    under inspection and the LAST RETAINED one (not its predecessor in the original sequence); same control
+    flow as `dedupLoop` -/
+def dedupCallsLoop (bombs : List Id) : (fuel : Nat) → Vec → (read write : Nat) → List Outcome → List (Id × Id)
+  | 0, _, _, _, _ => []
+  | fuel + 1, v, read, write, o =>
+    match peek v read, peek v (write - 1) with
+    | .ok a, .ok b =>
+      (a, b) ::
+        (match o with
+         | [] => []
+         | .panic :: _ => []
+         | .ret c :: o =>
+           if c ≠ 0 then
+             match dropAt bombs false v read with
+             | .ok (v, false) => dedupCallsLoop bombs fuel v (read + 1) write o
+             | _ => []
+           else
+             match copy v read write 1 with
+             | .ok v => dedupCallsLoop bombs fuel v (read + 1) (write + 1) o
+             | .error _ => [])
+    | _, _ => []
+
+/-- the arguments of the calls `dedup_by(same_bucket)` makes -/
+def dedupCalls (bombs : List Id) (v : Vec) (o : List Outcome) : List (Id × Id) :=
+  if v.len ≤ 1 then [] else dedupCallsLoop bombs (v.len - 1) v 1 1 o
+
 /-! ## `dedup_by_key` — `BumpBox<[T]>::dedup_by_key` (l.2510-2516): `self.dedup_by(|a, b| key(a) == key(b))`,
     i.e. the loop of `dedup_by` with TWO callback invocations per comparison (`key(read)`, then `key(prev)`) -/
 
